@@ -78,6 +78,14 @@ class Prop(BaseProp):
                     raw.append(rng.choice([t, "   " + t, "      deeper " + t, "# " + t, "#" + t, "  # " + t, "#    " + t, "#\t" + t,
                                            "", "#", " #", "\t" + t, "- item " + t, "#[ " + t, "    # " + t + " #"]))
                 it.raw_lines = raw
+        if rng.random() < 0.3:
+            # a documented variable whose quoted value runs over several lines: with a line continuation (backslash at the end
+            # of the line) and with a plain line break; under CRLF these are backslash-CR-LF / CR-LF
+            it = b.set_(force_doc=True)
+            val = rng.choice(['"first part \\\nsecond part \\\nthird"', '"line one\nline two"', '"ends with continuation \\\n"'])
+            it.args = [it.args[0], val]
+            it.gt["type"], it.gt["default"] = "str", val[1:-1]
+            mod.items.insert(rng.randint(0, len(mod.items)), it)
         mod.unasserted = b.unasserted_impl_names
         return mod
 
